@@ -128,6 +128,28 @@ theorem rejected_otherwise (lower : σ → σ) (names : List σ)
   | none => rfl
   | some v => exact absurd ((enum_parse_iff lower names as hperm s v).1 hp) (h v)
 
+/-! ### One lower-casing on both sides
+
+The keys of the arms are lower-cased by the macro, the scrutinee by the generated code at run time.
+All the theorems above are about the case where both use the same function (std's
+`str::to_lowercase`); the two statements below say that this is all that is needed, and that it
+cannot be dropped. -/
+
+/-- If the run-time lower-casing agrees with the one the keys were built with, the generated match
+behaves as analysed. -/
+theorem same_lowering_suffices (lowerRt lowerCt : σ → σ) (h : ∀ x, lowerRt x = lowerCt x)
+    (as : List (Arm σ)) (s : σ) : parse lowerRt as s = parse lowerCt as s := by
+  have : lowerRt = lowerCt := funext h
+  rw [this]
+
+/-- A run-time shortcut that differs from the macro's lower-casing on some name breaks the round
+trip of that name (numbers stand for strings: 7 is a name whose lower-case form is 3; the shortcut
+leaves it alone). -/
+theorem different_lowering_breaks_roundtrip :
+    ∃ (lowerRt lowerCt : Nat → Nat) (names : List Nat) (v : Nat), v ∈ names ∧
+      parse lowerCt (arms lowerCt names) v = some v ∧ parse lowerRt (arms lowerCt names) v = none := by
+  refine ⟨id, fun x => if x = 7 then 3 else x, [7, 20], 7, by simp, ?_, ?_⟩ <;> decide
+
 /-- A single-field struct parses exactly as its field does: success wrapped, error unchanged. -/
 theorem newtype_delegates {ε α β : Type} (p : String → Except ε α) (wrap : α → β) (s : String) :
     parseNewtype p wrap s = (p s).map wrap := by
